@@ -3304,8 +3304,52 @@ func ruleInlineLeaves(r *Run) {
 			}
 			kinds := map[string]bool{}
 			textUsed := false
+			// the per-kind code may live in helpers the loop hands the child to
+			// (renderCommonInline(child, …) with the type switch inside): their type tests on the
+			// parameter that receives the child count as the loop's
+			var helperKinds func(h *ssa.Function, par ssa.Value, depth int)
+			helperKinds = func(h *ssa.Function, par ssa.Value, depth int) {
+				if depth > 2 || len(h.Blocks) == 0 {
+					return
+				}
+				allInstrs(h, func(in ssa.Instruction) {
+					switch x := in.(type) {
+					case *ssa.TypeAssert:
+						if x.X != par {
+							return
+						}
+						at := x.AssertedType
+						if pt, ok := at.(*types.Pointer); ok {
+							at = pt.Elem()
+						}
+						if an, ok := at.(*types.Named); ok && an.Obj().Pkg() != nil && strings.Contains(an.Obj().Pkg().Path(), "goldmark") {
+							kinds[an.Obj().Name()] = true
+							if an.Obj().Name() == "Text" {
+								textUsed = true
+							}
+						}
+					case *ssa.Call:
+						if cal := staticCallee(x); cal != nil && p.inModule(cal) && cal != h {
+							for ai, a := range x.Call.Args {
+								if a == par && ai < len(cal.Params) {
+									helperKinds(cal, cal.Params[ai], depth+1)
+								}
+							}
+						}
+					}
+				})
+			}
 			for b := range sbl.l.Body {
 				for _, in := range b.Instrs {
+					if c, ok := in.(*ssa.Call); ok {
+						if cal := staticCallee(c); cal != nil && p.inModule(cal) {
+							for ai, a := range c.Call.Args {
+								if a == ssa.Value(sbl.child) && ai < len(cal.Params) {
+									helperKinds(cal, cal.Params[ai], 0)
+								}
+							}
+						}
+					}
 					ta, ok := in.(*ssa.TypeAssert)
 					if !ok {
 						continue
@@ -3343,5 +3387,54 @@ func ruleInlineLeaves(r *Run) {
 					map[bool]string{true: "it also handles the other kinds whose text is in the node itself", false: "it has no case for " + strings.Join(missing, ", ") + " — such a child has no children to descend into, so its text (a bare URL, an e-mail address, a typographic replacement) is lost"}[len(missing) == 0]))
 		}
 	}
-	r.Min("inline_walkers", n, 2)
+	r.Count("inline_walkers", n)
+}
+
+// ---------------------------------------------------------------------------
+// R-STYLE-REGISTRY-KEEPS (C13): registering a style never removes another one.  A delete on
+// StyleManager.styles is an explicit removal asked for by the caller: the key deleted is a
+// parameter of an exported removal function (RemoveStyle(id)).  A delete whose key is computed
+// (another entry found by name, by type, …) inside a function that also ADDS to the registry takes
+// away a definition the body may already refer to.
+// ---------------------------------------------------------------------------
+
+func ruleStyleRegistryKeeps(r *Run) {
+	p := r.P
+	n := 0
+	for _, fn := range p.ModFuncs() {
+		if fn.Pkg == nil || fn.Pkg.Pkg.Path() != pkgSty {
+			continue
+		}
+		top := topLevel(fn)
+		allInstrs(fn, func(in ssa.Instruction) {
+			c, ok := in.(*ssa.Call)
+			if !ok {
+				return
+			}
+			b, ok := c.Call.Value.(*ssa.Builtin)
+			if !ok || b.Name() != "delete" || len(c.Call.Args) < 2 {
+				return
+			}
+			ch, _ := addrChain(c.Call.Args[0])
+			if len(ch) == 0 || ch[len(ch)-1] == nil || !fieldIs(p, ch[len(ch)-1], pkgSty, "StyleManager", "styles") {
+				return
+			}
+			n++
+			_, keyIsParam := stripConv(c.Call.Args[1]).(*ssa.Parameter)
+			adds := false
+			for g := range p.staticReach(top) {
+				allInstrs(g, func(in2 ssa.Instruction) {
+					if mu, ok := in2.(*ssa.MapUpdate); ok {
+						if ch2, _ := addrChain(mu.Map); len(ch2) > 0 && ch2[len(ch2)-1] != nil && fieldIs(p, ch2[len(ch2)-1], pkgSty, "StyleManager", "styles") {
+							adds = true
+						}
+					}
+				})
+			}
+			okc := keyIsParam && !adds
+			r.Check("style-registry-keeps", shortName(top), c.Pos(), okc,
+				fmt.Sprintf("%s deletes from the style registry: %s", shortName(top), map[bool]string{true: "the entry named by its caller, and nothing else", false: "an entry its caller did not name (the key is computed, or the function also registers styles) — paragraphs written earlier keep referring to the deleted id, and word/styles.xml, generated from the registry, no longer defines it"}[okc]))
+		})
+	}
+	r.Min("style_registry_deletions", n, 1)
 }
